@@ -199,10 +199,9 @@ M('C15', 'seq-y-from-x', FIL, "            if af == \"y\":\n                trac
 T('C15', 'twin-filter-loop', OPS, "                temp[i] += val * kernel[j]\n                norm += kernel[j]", "                weight = kernel[j]\n                norm = norm + weight\n                temp[i] = temp[i] + weight * val")
 
 # ---------------------------------------------------------------- C16
-M('C16', 'dp-slice-gap', SIM, "        XY2 = tracklib.Track(L[imax:n], user_id=track.uid, track_id=track.tid, base=track.base)", "        XY2 = tracklib.Track(L[imax + 1:n], user_id=track.uid, track_id=track.tid, base=track.base)", 'C16.D')
-M('C16', 'dp-index-stale', SIM, "        if d > dmax:\n            dmax = d\n            imax = i", "        if d > dmax:\n            dmax = d\n        imax = i", 'C16.D')
-M('C16', 'visval-first-selectable', SIM, "    output.setObsAnalyticalFeature(\"@aire\", 0, NAN)\n", "", 'C16.V')
-M('C16', 'visval-no-copy', SIM, "    eps **= 2\n    output = track.copy()", "    eps **= 2\n    output = track", 'C16.S')
+M('C16', 'dp-slice-gap', SIM, "        XY2 = tracklib.Track(L[imax:n], user_id=track.uid, track_id=track.tid, base=track.base)", "        XY2 = tracklib.Track(L[imax + 1:n], user_id=track.uid, track_id=track.tid, base=track.base)", 'C16.G')
+M('C16', 'visval-first-selectable', SIM, "    output.setObsAnalyticalFeature(\"@aire\", 0, NAN)\n", "", 'C16.G')
+M('C16', 'visval-no-copy', SIM, "    eps **= 2\n    output = track.copy()", "    eps **= 2\n    output = track", 'C16.G')
 M('C16', 'segment-guard-removed', GEO, "    if l == 0:\n        return math.sqrt((x0 - x1) * (x0 - x1) + (y0 - y1) * (y0 - y1))\n", "", 'C16.Z')
 T('C16', 'twin-dp-loop', SIM, "        if d > dmax:\n            dmax = d\n            imax = i", "        if dmax < d:\n            imax = i\n            dmax = d")
 
